@@ -5,6 +5,7 @@ mod canon;
 mod framework;
 mod panics;
 mod prng;
+mod session;
 mod wire;
 
 use framework::{Options, ReplayFile, Tier};
@@ -26,6 +27,12 @@ macro_rules! dispatch {
             "C03" => $f(&wire::checks::C03 $(, $arg)*),
             "C09" => $f(&wire::checks::C09 $(, $arg)*),
             "C10" => $f(&wire::checks::C10 $(, $arg)*),
+            "C01" => $f(&session::checks::C01 $(, $arg)*),
+            "C04" => $f(&session::checks::C04 $(, $arg)*),
+            "C05" => $f(&session::checks::C05 $(, $arg)*),
+            "C08" => $f(&session::checks::C08 $(, $arg)*),
+            "C17" => $f(&session::checks::C17 $(, $arg)*),
+            "C18" => $f(&session::checks::C18 $(, $arg)*),
             other => {
                 eprintln!("unknown or unclaimed property {}", other);
                 std::process::exit(2);
@@ -101,8 +108,23 @@ fn main() {
             let code = dispatch!(id.as_str(), do_replay, &rf, quiet, strict);
             std::process::exit(code);
         }
+        "smoke" => {
+            use session::plan::*;
+            let mut plan = Plan::empty(1);
+            plan.callers = vec![vec![Op::Request { id: 1 }, Op::Think { ms: 150 }, Op::List { ids: vec![2, 3] }]];
+            plan.changes = vec![ChangeEvent { at_ms: 50, names: vec!["player".into(), "mixer".into()] }];
+            plan.net.s2c_mode = SegMode::Lines;
+            plan.net.s2c_delay_ms = vec![1];
+            let out = session::run::execute(&plan);
+            for l in session::format_log(&out.log, 400) {
+                println!("{}", l);
+            }
+            println!("ops: {:?}", out.ops.iter().map(|o| o.result.summary()).collect::<Vec<_>>());
+            println!("events: {:?}", out.events);
+            println!("panics: {:?} judge: {:?} server: {:?}", out.panics, out.judge.violations, out.server_violations);
+        }
         "list" => {
-            println!("C02 C03 C09 C10");
+            println!("C01 C02 C03 C04 C05 C08 C09 C10 C17 C18");
         }
         _ => usage(),
     }
